@@ -10,6 +10,8 @@
    [less_v0] is the comparison of the pinned snapshot. *)
 From Coq Require Import ZArith List Bool Permutation Sorted.
 From Verif Require Import Annotate.Model Annotate.SortProofs Annotate.Plans Annotate.Determinism C12.Proofs.
+From Verif Require Annotate.GenOk.
+From VerifGen Require GenAnnotate.
 Import ListNotations.
 Open Scope Z_scope.
 
@@ -79,6 +81,11 @@ Theorem C12_compute_order_v0_refuted :
                        = ApplyOk refs pend /\ map r_version refs = [3]).
 Proof. exact compute_order_refuted_v0. Qed.
 Print Assumptions C12_compute_order_v0_refuted.
+
+(* 6. tie by translation: updatesSortIndex.Less regenerated from update.go on every run is [less] *)
+Theorem C12_generated_less_is_model : forall a b, GenAnnotate.gen_less_index a b = less a b.
+Proof. exact GenOk.gen_less_index_ok. Qed.
+Print Assumptions C12_generated_less_is_model.
 
 (* non-vacuity: a concrete history meeting every hypothesis of theorems 1-3, two different sort
    behaviours meeting sort_spec, a successful non-empty result *)
